@@ -118,6 +118,14 @@ def run(tier, seed):
                 _, did, d = m
                 name, hdr, sf = drawers[did]
                 real = dp.parse_dump_data(memoryview(d), hdr, sf)
+                if d and rng.random() < 0.3:
+                    # the same bytes handed over as a slice of a larger buffer (a section inside a log): only the slice counts
+                    pre, post = gen_dump(rng)[:rng.randrange(0, 90)], gen_dump(rng)[:rng.randrange(0, 90)]
+                    sl = dp.parse_dump_data(memoryview(pre + d + post)[len(pre):len(pre) + len(d)], hdr, sf)
+                    ck.count('dump handed over as a slice of a larger buffer')
+                    if sl != real:
+                        ck.fail('decoding a dump that is a slice of a larger buffer differs from decoding the same bytes on their own',
+                                {'op': 'dump', 'drawer': name, 'data_hex': d.hex()[:4000], 'before_hex': pre.hex(), 'after_hex': post.hex()}, 'slice')
                 if len(opt_calls) < (60 if thorough else 25) and len(d) < 5000 and rng.random() < 0.3:
                     opt_calls.append(('dump', d, [hdr, sf], real))
                 ilog, traces = regions_by_statement(d)
@@ -156,8 +164,9 @@ def run(tier, seed):
                     text.append(ln)
                 name, hdr, sf = drawers[did]
                 path = os.path.join(tmp, 'dump.txt')
-                with open(path, 'w') as f:
-                    f.write('\n'.join(text) + ('\n' if rng.random() < 0.7 else ''))
+                eol = rng.choice(['\n', '\n', '\r\n'])
+                with open(path, 'w', newline='') as f:
+                    f.write(eol.join(text) + (eol if rng.random() < 0.7 else ''))
                 rp = {'op': 'dumpfile', 'drawer': name, 'format': k, 'padded': pad, 'data_hex': d.hex() if len(d) < 4000 else d[:64].hex() + '... (%d bytes)' % len(d), 'text': text[:50]}
                 try:
                     real_file = dp.parse_dump_file(path, hdr, sf)
